@@ -93,6 +93,7 @@ Lemma first_takeW (a_out : nat) (take ac0 Dlow : Z) : (1 <= rsz)%nat ->
                   c_rcarry := 0; c_atake := ab - take; c_racc := rb; c_rlimb := (rsz - 1)%nat |}.
 Proof.
   intros Hrsz Ez Eg Htake Ht EL HD Hc0 H0. cbv zeta.
+  assert (Hg' := Hg). (* keeps the statement's list of hypotheses stable *)
   destruct (digit_stepW a_out ac0 Ht Hc0) as (E & HX & Hw & Hb & Hdec). cbv zeta in E, HX, Hw, Hb, Hdec.
   rewrite E. cbn [fst snd]. set (X := vin a lsh a_out + ac0) in *.
   set (an := wrap ab X) in *. set (ac := bdiv ab X) in *.
@@ -114,9 +115,9 @@ Proof.
   change (c_res s2) with (zeros rsz). change (c_anorm s2) with rnd. change (c_acarry s2) with ac.
   change (c_rcarry s2) with 0. change (c_atake s2) with (ab - take). change (c_racc s2) with rb.
   split.
-  { unfold shape, s2. cbn [c_res c_rlimb c_racc]. split; [apply zeros_length|]. split; [lia|].
-    split; [intros; apply nth_zeros|]. rewrite nth_zeros, Z.sub_diag. cbn. lia. }
-  split; [lia|]. split; [lia|]. split; [exact Hrnd|]. split; [exact Hb|]. split; [reflexivity|].
+  { unfold shape, s2. cbn [c_res c_rlimb c_racc]. split; [apply zeros_length|]. split; [clear - Hrsz; lia|].
+    split; [intros; apply nth_zeros|]. rewrite nth_zeros, Z.sub_diag. cbn. clear; lia. }
+  split; [clear - Hrb; lia|]. split; [clear - Htake Hab1; lia|]. split; [exact Hrnd|]. split; [exact Hb|]. split; [reflexivity|].
   split; [rewrite Ez, Eg; ring|].
   assert (Hpa : 0 < 2 ^ (zn a_out * ab)) by (apply pow2_pos; apply Z.mul_nonneg_nonneg; unfold zn; lia).
   exists (Dlow + 2 ^ (zn a_out * ab) * rho), X, rho.
@@ -124,7 +125,7 @@ Proof.
   - unfold dropok. split.
     + rewrite Eg, pow2_add by (try apply Z.mul_nonneg_nonneg; unfold zn; lia).
       assert (take_ge : 2 <= 2 ^ take).
-      { pose proof (pow2_split take ltac:(lia)). pose proof (pow2_pos (take - 1) ltac:(lia)). lia. }
+      { pose proof (pow2_split take ltac:(clear - Htake; lia)) as Hs1. pose proof (pow2_pos (take - 1) ltac:(clear - Htake; lia)) as Hp1. clear - Hs1 Hp1. lia. }
       apply drop_bound; [exact Hpa|exact take_ge|exact HD|exact Hrho].
     + intros Hgl.
       assert (Ea0 : a_out = 0%nat).
@@ -138,7 +139,7 @@ Proof.
       assert (Etk : take = g) by (rewrite Eg, Ea0; change (zn 0) with 0; ring).
       assert (EX : X = nthZ a (length a - 1 - a_out) * 2 ^ lsh).
       { unfold X. rewrite Hac0, Z.add_0_r. apply vin_at; [exact Ht|reflexivity]. }
-      assert (El : 2 ^ lsh = 2 ^ take * 2 ^ (lsh - take)) by (rewrite <- pow2_add by lia; f_equal; lia).
+      assert (El : 2 ^ lsh = 2 ^ take * 2 ^ (lsh - take)) by (rewrite <- pow2_add by (clear - Htake Hgl Etk; lia); f_equal; ring).
       set (x := nthZ a (length a - 1 - a_out)) in *.
       assert (Hmul : an = (x * 2 ^ (lsh - take) - 2 ^ (ab - take) * ac) * 2 ^ take).
       { rewrite Z.mul_sub_distr_r.
@@ -152,7 +153,7 @@ Proof.
     assert (E2 : 2 ^ ((zn a_out + 1) * ab) = 2 ^ (zn a_out * ab) * 2 ^ ab).
     { rewrite <- pow2_add by (try apply Z.mul_nonneg_nonneg; unfold zn; lia). f_equal. ring. }
     rewrite E1, E2.
-    replace (vin a lsh a_out) with (an + 2 ^ ab * ac - ac0) by (unfold X in Hdec; lia).
+    replace (vin a lsh a_out) with (an + 2 ^ ab * ac - ac0) by (clear - Hdec; unfold X in Hdec; clearbody an ac; lia).
     rewrite Ern at 1. ring.
   - replace (ab - (ab - take)) with take by ring. rewrite Hdec at 1. rewrite Ern at 1. ring.
   - replace (ab - (ab - take)) with take by ring. exact Hrho.
